@@ -835,8 +835,11 @@ fn emit_family(prop: &str, seed: u64, quick: bool, out: &mut Vec<Fail>) -> usize
             if out.len() > 30 { break; }
         }
     }
+    // VERIF_NO_CORPUS=1: measurement only - how much do the generated programs catch without the curated corpus?
+    let no_corpus = std::env::var_os("VERIF_NO_CORPUS").is_some();
     for ptr in [4usize, 8] {
         for (_label, mods) in emit_corpus::corpus() {
+            if no_corpus { break; }
             n += 1;
             if let Outcome::Ok(st) = build_modules(&mods, ptr) {
                 let e = emit_checked(ptr, &st, &mods, &dir);
